@@ -210,6 +210,11 @@ def register(reg):
                 'state.decoded_values is select(%s, state.idx_subset)' % VALL,
                 'state.bitmap_links is select(%s, state.idx_subset)' % LALL]
     WALK_MOD = ['state.*', 'elems_of(%s)' % DALL, 'elems_of(%s)' % VALL, 'elems_of(%s)' % LALL]
+    # a walk moves the bit operator only forwards: a reader's position advances over an unchanged stream, a writer's stream grows by
+    # appending (every primitive under contract does exactly one of the two)
+    STREAM_MOD = ['bit_operator.bit_stream.pos', 'bit_operator.bit_stream.bits', 'bit_operator.bit_stream.len']
+    STREAM_ENS = ['bit_operator.bit_stream.pos >= old(bit_operator.bit_stream.pos)', 'bit_operator.bit_stream.len >= old(bit_operator.bit_stream.len)',
+                  'prefix_same(bit_operator.bit_stream.bits, old(bit_operator.bit_stream.bits), old(bit_operator.bit_stream.len))']
     WALK_ENS = ['gh(state, "walks") == old(gh(state, "walks")) + 1',
                 '%s is old(%s)' % (DALL, DALL), '%s is old(%s)' % (VALL, VALL), '%s is old(%s)' % (LALL, LALL),
                 'same_list(%s)' % DALL, 'same_list(%s)' % VALL, 'same_list(%s)' % LALL,
@@ -218,11 +223,11 @@ def register(reg):
     WALK_ERR = {'PyBufrKitError': None, 'AssertionError': None, 'NotImplementedError': None, 'ValueError': None, 'StopIteration': None,
                 'IndexError': None, 'TypeError': None, 'KeyError': None, 'AttributeError': None}
     add(Contract('pybufrkit.coder.Coder.process_template', {'self': Ref('Coder'), 'state': S, 'bit_operator': Ref('BitOperator'), 'template': Ref('BufrTemplate')},
-                 trusted=True, requires=WALK_REQ, modifies=WALK_MOD, ensures=WALK_ENS, raises=WALK_ERR, serves=['C01', 'C02', 'C06'],
+                 trusted=True, requires=WALK_REQ + ['bit_operator != None'], modifies=WALK_MOD + STREAM_MOD, ensures=WALK_ENS + STREAM_ENS, raises=WALK_ERR, serves=['C01', 'C02', 'C06'],
                  note='interface of one template walk: must start from the initial registers on the containers of the current subset'))
     add(Contract('pybufrkit.templatecompiler.process_compiled_template',
                  {'coder': Ref('Coder'), 'state': S, 'bit_operator': Ref('BitOperator'), 'compiled_template': Ref('CompiledTemplate')},
-                 trusted=True, requires=WALK_REQ, modifies=WALK_MOD, ensures=WALK_ENS, raises=WALK_ERR, serves=['C01', 'C02', 'C06', 'C08'],
+                 trusted=True, requires=WALK_REQ + ['bit_operator != None'], modifies=WALK_MOD + STREAM_MOD, ensures=WALK_ENS + STREAM_ENS, raises=WALK_ERR, serves=['C01', 'C02', 'C06', 'C08'],
                  note='interface of one walk of a compiled template (same obligations as the direct walk)'))
     add(Contract('pybufrkit.bufr.BufrMessage.build_template', {'self': Ref('BufrMessage'), 'tables_root_dir': STR, 'normalize': INT},
                  returns=TupleT(Ref('BufrTemplate'), Ref('BufrTableGroup')), trusted=True,
@@ -248,14 +253,17 @@ def register(reg):
                  returns=Ref('TemplateData'),
                  requires=['bufr_message != None', 'bufr_message._is_compressed != None', 'bufr_message._n_subsets != None',
                            'is_bool(bufr_message._is_compressed.value)', 'is_int(bufr_message._n_subsets.value)', '%s >= 1' % MSG_N],
-                 modifies=['bufr_message.table_group_key', 'ghost(bufr_message, "td_entered")'], counts=[('bufr_message', 'td_entered')],
+                 modifies=['bufr_message.table_group_key', 'ghost(bufr_message, "td_entered")',
+                           'bit_reader.bit_stream.pos', 'bit_reader.bit_stream.bits', 'bit_reader.bit_stream.len'], counts=[('bufr_message', 'td_entered')],
                  loops={0: Loop(invariants=['state != None', 'state is entry(state)', 'gh(state, "walks") == entry(gh(state, "walks")) + _i0',
                                             'not state.is_compressed', 'state.n_subsets == %s' % MSG_N,
                                             'len(%s) == %s' % (DALL, MSG_N), 'len(%s) == %s' % (VALL, MSG_N), 'len(%s) == %s' % (LALL, MSG_N),
                                             '%s is entry(%s)' % (DALL, DALL), '%s is entry(%s)' % (VALL, VALL), '%s is entry(%s)' % (LALL, LALL),
-                                            ],
-                                modifies=WALK_MOD)},
+                                            'rpos(bit_reader) >= entry(rpos(bit_reader))'],
+                                modifies=WALK_MOD + ['bit_reader.bit_stream.pos', 'bit_reader.bit_stream.bits', 'bit_reader.bit_stream.len'])},
                  ensures=['gh(bufr_message, "td_entered") == old(gh(bufr_message, "td_entered")) + 1',
+                          # the walk only moves the reader forwards
+                          'rpos(bit_reader) >= old(rpos(bit_reader))',
                           'result != None', 'fresh(result)', 'result.is_compressed == %s' % MSG_C,
                           'len(result.decoded_descriptors_all_subsets) == %s' % MSG_N, 'len(result.decoded_values_all_subsets) == %s' % MSG_N],
                  raises=dict(WALK_ERR, IOError=None, OSError=None), serves=['C01', 'C05', 'C06'],
@@ -311,7 +319,8 @@ def register_sections(reg):
                                       'implies(%s, forall(q, 0, len(%s), %s.name != "is_compressed" and %s.name != "n_subsets" and '
                                       '%s is not bufr_message._is_compressed and %s is not bufr_message._n_subsets))'
                                       % (HAS_TD, PS, par('q'), par('q'), par('q'), par('q'))],
-                 modifies=['section.bitpos_start', 'fields_of(section._params, "value")', 'bufr_message.*', 'bit_reader.bit_stream.pos'],
+                 modifies=['section.bitpos_start', 'fields_of(section._params, "value")', 'bufr_message.*', 'bit_reader.bit_stream.pos',
+                           'bit_reader.bit_stream.bits', 'bit_reader.bit_stream.len'],
                  loops={0: Loop(invariants=['section.bitpos_start == %s' % P0, 'rpos(bit_reader) >= %s' % P0,
                                             'implies(%s, %s)' % (HAS_TD, TD_READY),
                                             'implies(%s, bufr_message._is_compressed is old(bufr_message._is_compressed) and '
@@ -321,7 +330,8 @@ def register_sections(reg):
                                             'forall(q, 0, _i0, is_none(%s.expected) or Eq(%s.value, %s.expected))' % (par('q'), par('q'), par('q')),
                                             'gh(bufr_message, "td_entered") == entry(gh(bufr_message, "td_entered")) + '
                                             'ite(exists(q, 0, _i0, %s.type == "template_data"), 1, 0)' % par('q')],
-                                modifies=['fields_of(section._params, "value")', 'bufr_message.*', 'bit_reader.bit_stream.pos'],
+                                modifies=['fields_of(section._params, "value")', 'bufr_message.*', 'bit_reader.bit_stream.pos',
+                                          'bit_reader.bit_stream.bits', 'bit_reader.bit_stream.len'],
                                 locals={'parameter': Ref('SectionParameter')})},
                  ensures=['result == rpos(bit_reader) - %s' % P0, 'result >= 0', 'section.bitpos_start == %s' % P0,
                           # the declared length is honoured: surplus octets are skipped, an overrun is refused (raises)
